@@ -26,6 +26,16 @@ def run(chk):
     chk.rule("R09.2", "one origin per descriptor: the radii kernel and the property channel receive the same origin; the channel samples origin + r * direction", 6)
     chk.rule("R09.3", "entry points: the origin moves with the molecule (equivariant), the search bounds do not depend on position (invariant)", 10)
     chk.rule("R09.4", "the element lookup that sizes the search bounds is given an atomic number, not a loop index", 2)
+    chk.rule("R09.5", "the crystal environment handed to a descriptor is complete (= C03 R03.1-R03.3 at the environment queries the "
+                      "descriptor entry points call): extent, rounding/reduction direction, coordinate space", 12)
+    if chk.want("R09.5"):
+        from ..inherit import inherit
+        inherit(chk, "R09.5", "c03", ["R03.1", "R03.2", "R03.3"],
+                functions={"Crystal." + f for f in ENV_QUERIES} | {"Crystal.slab"} | helper_sites(repo))
+    chk.rule("R09.6", "the charge model behind the 'esp' surface property is entry-aligned: M[i,j] is filled from dists[i,j] with the same "
+                      "index set on both sides, per-atom parameters are collected in atom order, the solved vector is cut to the atoms", 5)
+    if chk.want("R09.6"):
+        r09_6(chk, repo)
     if chk.want("R09.1"):
         r09_1(chk, sd, dx)
     if chk.want("R09.2"):
@@ -34,6 +44,23 @@ def run(chk):
         r09_34(chk, repo)
     chk.assume("rotation independence (rests on C08 plus discretisation) and convergence of Brent's iteration are not decided")
     chk.assume("the density kernels see positions only through differences from the evaluation point (C05 R05.4)")
+
+
+ENV_QUERIES = ("molecule_environment", "atomic_surroundings", "atom_group_surroundings", "functional_group_surroundings")
+
+
+def helper_sites(repo):
+    """Crystal helper methods that compute cell ranges (C03 treats them as sites of their own)."""
+    cr = repo.module(CR)
+    from .c03 import extent_calls, SITES
+    out = set()
+    for fn in cr.methods("Crystal"):
+        if fn.name in SITES:
+            continue
+        if any(isinstance(n, (ast.Name, ast.Attribute)) and getattr(n, "id", getattr(n, "attr", None)) in ("ceil", "floor") for n in ast.walk(fn)):
+            if extent_calls(cr.ev("Crystal." + fn.name)):
+                out.add("Crystal." + fn.name)
+    return out
 
 
 DESCRIPTORS = (("stockholder_weight_descriptor", "sphere_stockholder_radii"), ("promolecule_density_descriptor", "sphere_promolecule_radii"))
@@ -287,3 +314,46 @@ def r09_34(chk, repo):
                 chk.ob("R09.4", rel, q, "the element whose radius sizes the search bounds is looked up by atomic number", is_number and not is_index,
                        node=e.node, fingerprint="element-arg", expected="an atomic number (e.g. elements[n])",
                        found=f"Element[{arg}]" + (" : the loop index over atoms, not an atomic number" if is_index else ""))
+
+
+# ------------------------------------------------------------------------------------------------ R09.6
+def r09_6(chk, repo):
+    """Atom-order independence of the EEM charges needs every matrix entry (i, j) to come from the pair (i, j)."""
+    EXT = "ext/charges.py"
+    mod = repo.module(EXT)
+    q = "EEM.calculate_charges"
+    ev = mod.ev(q)
+    chk.saw(EXT, q)
+    molp = ev.param_names[0]
+    n = 0
+    for e in ev.events:
+        if e.kind not in ("store", "aug"):
+            continue
+        t = e.target.as_atom()
+        if not (t and t[0] == "sub" and len(t[2]) == 1):
+            continue
+        ia = t[2][0].as_atom()
+        if not (ia and ia[0] == "call" and call_name(ia) in ("numpy.triu_indices", "numpy.tril_indices", "numpy.diag_indices", "numpy.nonzero", "numpy.where")):
+            continue
+        n += 1
+        rhs = [a for a in find_atoms(e.value, lambda a: a[0] == "sub")]
+        idxs = {a[2][0].key() if len(a[2]) == 1 else str([x.key() for x in a[2]]) for a in rhs}
+        chk.ob("R09.6", EXT, q, "a pair-indexed store reads its right-hand side at the same index set (entry (i,j) from pair (i,j))",
+               idxs <= {t[2][0].key()}, node=e.node, fingerprint=f"aligned:{call_name(ia)}", expected=str(t[2][0]),
+               found=sorted(idxs))
+        src = {a[1].key() for a in rhs}
+        chk.ob("R09.6", EXT, q, "the off-diagonal entries are kappa / distance of that pair", e.value.key() == f"(EEM_KAPPA)/({molp}.distance_matrix[{t[2][0]}])",
+               node=e.node, fingerprint=f"value:{call_name(ia)}", found=str(e.value)[:120])
+    tri = {call_name(e.target.as_atom()[2][0].as_atom()) for e in ev.events if e.kind == "store" and e.target.as_atom()[0] == "sub"
+           and len(e.target.as_atom()[2]) == 1 and e.target.as_atom()[2][0].as_atom() and e.target.as_atom()[2][0].as_atom()[0] == "call"}
+    chk.ob("R09.6", EXT, q, "both triangles of the interaction block are filled", {"numpy.triu_indices", "numpy.tril_indices"} <= tri, fingerprint="both",
+           found=sorted(tri))
+    apps = [e for e in ev.events if e.kind == "call" and e.target is not None and e.target.key().endswith(".append") and e.loops]
+    okp = len(apps) == 2 and len({e.loops[-1].k for e in apps}) == 1 and apps[0].loops[-1].iter is not None and \
+        apps[0].loops[-1].iter.key() == f"{molp}.elements" and all(f"{molp}.elements[{e.loops[-1].index}].symbol" in e.extra["args"][0].key() for e in apps)
+    chk.ob("R09.6", EXT, q, "the per-atom parameters are collected in one loop over the molecule's elements, in atom order", okp, fingerprint="params",
+           found=[str(e.extra["args"][0])[:80] for e in apps])
+    ret = ev.returns[-1].value
+    chk.ob("R09.6", EXT, q, "the charges are the first N entries of the solution", ret.key().endswith(f"[(slice None len({molp}) None)]") and "numpy.linalg.solve" in ret.key(),
+           fingerprint="cut", found=str(ret))
+    chk.need(n >= 2, f"{q}: pair-indexed stores into the interaction matrix not found")
